@@ -116,6 +116,14 @@ theorem bom_table_conditions (p : List Nat) :
     Bom.completeB (Bom.build p) p = true ∧ Bom.monotoneB (Bom.build p) p.reverse = true :=
   ⟨Bom.build_complete p, Bom.build_monotone p⟩
 
+/-- `BOM::new` takes no panicking branch: in the variant `buildS` of the model in which an out-of-bounds
+`table[k_]`, a read of a `suff` entry that was never written, and `.unwrap()` of an absent transition are failures
+(as is running out of the model's loop fuel), the construction succeeds for every pattern and gives the same table —
+so `bom_exact` does not rest on the totalised defaults (`getD`, `[_]?`) of the model. (The empty pattern is refused
+by `BOM::new` before the loop: `expect("Expecting non-empty pattern.")`; the harness never sends it.) -/
+theorem bom_construction_total (p : List Nat) : Bom.buildS p = some (Bom.build p) :=
+  Bom.buildS_eq_build p
+
 example : Bom.findAll [1, 2, 1] [1, 2, 1, 2, 1] = [0, 2] := by decide
 example : Bom.build [1, 2, 1, 1, 2] =
     [[(1, 2), (2, 1)], [(1, 2)], [(2, 4), (1, 3)], [(2, 4)], [(1, 5)]] := by decide
